@@ -293,6 +293,12 @@ theorem zip_all_equal : ∀ (a b : List Cert), a.length ≤ b.length →
     have : x.id = y.id := by simpa [Cert.equal] using he.1
     simp [ih, this]
 
+/-- What the regenerated length test of `chainsEquivalent` means, whatever its shape (an `if` over `!=`s, a `switch` over
+the two accepted lengths, …): it passes iff the lengths are equal or the submitted one is `len(verified) - 1` (Go `int`). -/
+theorem chainsLenMismatch_iff (n m : Int) : Gen.chainsLenMismatch n m = false ↔ (n = m ∨ n = I64.sub m 1) := by
+  unfold Gen.chainsLenMismatch
+  by_cases h1 : n = m <;> by_cases h2 : n = I64.sub m 1 <;> simp [h1, h2]
+
 theorem chainsEquivalent_spec {a b : List Cert} (hb : b.length < 2 ^ 62) (h : chainsEquivalent a b = true) :
     (b.length = a.length ∨ b.length = a.length + 1) ∧ (b.take a.length).map (·.id) = a.map (·.id) := by
   unfold chainsEquivalent at h
@@ -304,9 +310,11 @@ theorem chainsEquivalent_spec {a b : List Cert} (hb : b.length < 2 ^ 62) (h : ch
     · left; omega
     · by_cases e2 : (a.length : Int) = ((b.length : Int) - 1 + 2 ^ 63) % 2 ^ 64 - 2 ^ 63
       · right; omega
-      · exfalso; apply hlen
-        simp only [Gen.chainsLenMismatch, I64.sub, I64.wrap64, Bool.and_eq_true, decide_eq_true_eq]
-        exact ⟨e, decide_eq_true e2⟩
+      · exfalso
+        have hf : Gen.chainsLenMismatch a.length b.length = false := by simpa using hlen
+        rcases (chainsLenMismatch_iff _ _).1 hf with h | h
+        · exact e h
+        · exact e2 (by simpa [I64.sub, I64.wrap64] using h)
   exact ⟨hl, zip_all_equal a b (by omega) h⟩
 
 /-! ### pools, parsing -/
